@@ -36,6 +36,9 @@ structure NodeRec where
   /-- recorded at construction: the node did NOT propagate (`propagates sel traits = false`: backend NONE,
       sampling operator, subgraph carrier, inlined control flow). Arguments / constants: `false`. -/
   guarded : Bool := false
+  /-- the node SAMPLES (a sampling operator, or an inlined model containing one): its run-time result is no
+      function of its inputs - every run draws it anew. -/
+  sampling : Bool := false
 
 abbrev State := List NodeRec
 
@@ -88,13 +91,13 @@ def step (v : Variant) (st : State) : Step → Except Exc State
     match construct v sel .standard (mkCtx st inputs inNames outs traits.skips) b with
     | .error e => .error e
     | .ok res => .ok (st ++ [{ kind := .standard, inputs := inputs, outputs := res.map (·.1), sem := sem,
-                               guarded := !propagates sel traits }])
+                               guarded := !propagates sel traits, sampling := traits.sampling }])
   | .inline sel inputs inNames gnames outs traits b sem =>
     if !inputsExist st inputs || inNames.length != inputs.length then .error .typeError else
     match construct v sel (.inline gnames) (mkCtx st inputs inNames outs traits.skips) b with
     | .error e => .error e
     | .ok res => .ok (st ++ [{ kind := .inline, inputs := inputs, outputs := res.map (·.1), sem := sem,
-                               guarded := !propagates sel traits }])
+                               guarded := !propagates sel traits, sampling := traits.sampling }])
 
 /-- Run a history; a raising constructor call leaves no node behind (the program sees the
     exception; the theorems are about the calls that returned). -/
@@ -118,20 +121,26 @@ inductive InCone (st : State) : Nat → VarRef → Prop
 
 /-! ### executions -/
 
-/-- Run-time values of all Vars, node by node, for one binding of the model inputs
-    (`bind n` = the value fed for the Argument node `n`). -/
-def rowOf (bind : Nat → Payload) (tbl : List (List (Option Payload))) (idx : Nat) (n : NodeRec) :
-    List (Option Payload) :=
+/-- Run-time values of all Vars, node by node, for one binding of the model inputs (`bind n` = the value
+    fed for the Argument node `n`) and one outcome of all random draws (`smp n key` = what the sampling node
+    `n` produced on its output `key` in this run - ANY function: the semantics of a sampling node is a
+    relation, every draw is a possible run). Deterministic nodes apply their meaning `sem` to the run-time
+    values of their inputs. -/
+def rowOf (bind : Nat → Payload) (smp : Nat → String → Option Payload)
+    (tbl : List (List (Option Payload))) (idx : Nat) (n : NodeRec) : List (Option Payload) :=
   match n.kind with
   | .argument => n.outputs.map fun _ => some (bind idx)
   | _ =>
-    let ins := n.inputs.map fun r => ((tbl[r.node]?.bind fun row => row[r.out]?).join).getD .none
-    n.outputs.map fun o => n.sem ins o.key
+    if n.sampling then n.outputs.map fun o => smp idx o.key
+    else
+      let ins := n.inputs.map fun r => ((tbl[r.node]?.bind fun row => row[r.out]?).join).getD .none
+      n.outputs.map fun o => n.sem ins o.key
 
-def table (bind : Nat → Payload) : State → List (List (Option Payload))
-  | st => st.foldl (fun tbl n => tbl ++ [rowOf bind tbl tbl.length n]) []
+def table (bind : Nat → Payload) (smp : Nat → String → Option Payload) : State → List (List (Option Payload))
+  | st => st.foldl (fun tbl n => tbl ++ [rowOf bind smp tbl tbl.length n]) []
 
-def denote (bind : Nat → Payload) (st : State) (r : VarRef) : Option Payload :=
-  ((table bind st)[r.node]?.bind fun row => row[r.out]?).join
+/-- The run-time value of Var `r` in the run determined by the input binding and the random draws. -/
+def denote (bind : Nat → Payload) (smp : Nat → String → Option Payload) (st : State) (r : VarRef) : Option Payload :=
+  ((table bind smp st)[r.node]?.bind fun row => row[r.out]?).join
 
 end VP
